@@ -33,15 +33,21 @@ def run(tier):
     rnd = common.rng("c08")
     binary = common.build("wrap")
     mults = [1, 2, 3, 4] if not full else list(range(1, 9))
-    modes = [("plain", []), ("fit16", ["chunk %d 16"]), ("fit64", ["chunk %d 64"]), ("count16", None)]
+    # chunk sizes that do and do not divide the growth quantum: with e.g. 7, 9, 13 a pad can straddle a multiple of 6000,
+    # so growth happens between the padding round and the instruction (found missing by seeded change C08-fitting-stale-pointer)
+    FITS = [7, 9, 11, 13, 14, 16, 17, 64]
+    modes = [("plain", []), ("count16", None)] + [("fit%d" % c, ["chunk %%d %d" % c]) for c in FITS]
     cases, meta = [], []
     kc = 0
     for m in mults:
         residues = range(-24, 25) if (full or m <= 2) else sorted(rnd.sample(range(-24, 25), 12))
         for r in residues:
             T = QUANTUM * m + r
+            fitpick = set(rnd.sample(["fit%d" % c for c in FITS], 3 if m <= 2 else 2))
             for mode, pre in modes:
-                if not full and m > 2 and mode not in ("plain", "fit16"):
+                if not full and mode.startswith("fit") and mode not in fitpick:
+                    continue
+                if not full and m > 2 and mode == "count16":
                     continue
                 for pattern in (["single", "multi"] if full or (r % 2 == 0) else ["multi"]):
                     kc += 1
